@@ -90,3 +90,54 @@ Theorem split_lines_of_written ls : WfLines ls -> Forall nocr ls -> split_lines 
 Proof.
   intros W C. unfold split_lines. apply split_write; auto. pose proof (wf_bytes_length ls W). lia.
 Qed.
+
+(* ---------- the converting modes, through preserve ---------- *)
+Definition with_nl (n : newline) (l : line) : line := mkLine (txt l) (match nl l with NoNL => NoNL | _ => n end).
+
+(* no terminated line has content ending in a carriage return *)
+Definition nocr_any (l : line) : Prop := nl l <> NoNL -> forall a, rev (txt l) <> 13%N :: a.
+
+Lemma line_bytes_conv m n l :
+  (m = MLF \/ m = MNative) /\ n = LF \/ m = MCRLF /\ n = CRLF ->
+  line_bytes m l = line_bytes MKeep (with_nl n l).
+Proof.
+  unfold line_bytes, with_nl. cbn [txt nl].
+  intros [[[-> | ->] ->] | [-> ->]]; destruct (nl l); reflexivity.
+Qed.
+
+Lemma lines_bytes_conv m n :
+  (m = MLF \/ m = MNative) /\ n = LF \/ m = MCRLF /\ n = CRLF ->
+  forall ls, lines_bytes m ls = lines_bytes MKeep (map (with_nl n) ls).
+Proof.
+  intros H. induction ls as [|l ls IH]; [reflexivity|].
+  cbn [map]. rewrite !lines_bytes_cons, IH, (line_bytes_conv m n l H). reflexivity.
+Qed.
+
+Lemma wf_with_nl n : n <> NoNL -> forall ls, WfLines ls -> WfLines (map (with_nl n) ls).
+Proof.
+  intros Hn. induction 1 as [|l Hlf Hne|l l' r Hlf Hnl _ IH]; cbn [map].
+  - constructor.
+  - apply Wf_last; cbn [with_nl txt nl]; [exact Hlf|]. intros E. apply Hne. destruct (nl l); [contradiction|contradiction|reflexivity].
+  - cbn [map] in IH. apply Wf_cons; cbn [with_nl txt nl]; [exact Hlf| |exact IH].
+    destruct (nl l); [exact Hn|exact Hn|contradiction].
+Qed.
+
+(* lf and native: the bytes written read back as the same contents, every terminated line LF *)
+Theorem written_lf m ls : m = MLF \/ m = MNative ->
+  WfLines ls -> Forall nocr_any ls -> split_lines (lines_bytes m ls) = map (with_nl LF) ls.
+Proof.
+  intros Hm W C. rewrite (lines_bytes_conv m LF (or_introl (conj Hm eq_refl))).
+  apply split_lines_of_written; [apply wf_with_nl; [discriminate|exact W]|].
+  apply Forall_map. eapply Forall_impl; [|exact C]. intros l H. unfold nocr, with_nl. cbn [txt nl].
+  intros E a. apply H. intros E'. rewrite E' in E. discriminate.
+Qed.
+
+(* crlf: the bytes written read back as the same contents, every terminated line CRLF; no condition on the contents *)
+Theorem written_crlf ls :
+  WfLines ls -> split_lines (lines_bytes MCRLF ls) = map (with_nl CRLF) ls.
+Proof.
+  intros W. rewrite (lines_bytes_conv MCRLF CRLF (or_intror (conj eq_refl eq_refl))).
+  apply split_lines_of_written; [apply wf_with_nl; [discriminate|exact W]|].
+  apply Forall_map. apply Forall_forall. intros l _. unfold nocr, with_nl. cbn [txt nl].
+  destruct (nl l); discriminate.
+Qed.
